@@ -159,6 +159,10 @@ impl<'a> Machine<'a> {
                 self.reset_match();
                 Ok(None)
             }
+            D_RESET_RETURN if scripted => {
+                self.reset_match();
+                Ok(Some(action))
+            }
             D_ERR if matches!(kind, Kind::Fallible(_)) => Err(1000 + action as u32),
             d if scripted && named && d >= 3 && d < 200 && d % 2 == 1 => {
                 let k = ((d - 3) / 2) as usize;
